@@ -14,6 +14,45 @@ Open Scope Z_scope.
 Theorem C16_checker_exact : forall g q r, route_check g q r = true <-> route_valid g q r.
 Proof. exact checker_exact. Qed.
 
+(** The judge of the check: [route_ok] (= the checker) is sound for the specification, and
+    [route_diagnose], which the check evaluates inside Coq on every returned route to name the
+    first failing clause, is 0 exactly when the checker accepts: a route is reported iff it is not
+    valid. *)
+Theorem C16_route_ok_sound : forall g q r, route_ok g q r = true -> route_valid g q r.
+Proof. exact route_ok_sound. Qed.
+
+Theorem C16_judge_is_checker : forall g q r, route_diagnose g q r = 0 <-> route_check g q r = true.
+Proof. exact diagnose_zero_iff. Qed.
+
+Theorem C16_judge_sound : forall g q r, route_diagnose g q r = 0 -> route_valid g q r.
+Proof. exact judge_sound. Qed.
+
+Theorem C16_judge_complete : forall g q r, route_valid g q r -> route_diagnose g q r = 0.
+Proof. exact judge_complete. Qed.
+
+(** What acceptance means hop by hop: every path resolves against the view; between 1 and
+    [max_path_count] paths; the value is delivered; every leg goes over a usable (enabled, known
+    features), non-excluded channel of an allowed kind, carries at least its minimum and leaves the
+    policy fee of the next channel; every path respects the length and CLTV limits and ends at the
+    payee; the total fees respect the limit.  (Maximum / joint capacity and "no superfluous path"
+    are the remaining clauses of [route_valid].) *)
+Theorem C16_route_ok_legs : forall g q r,
+  route_ok g q r = true ->
+  exists all, List.map (resolve g q) r = List.map Some all /\
+    1 <= Z.of_nat (List.length r) <= q_max_paths q /\
+    q_value q <= sumz (List.map final_amt all) /\
+    (forall ls l, In ls all -> In l ls ->
+       usable (r_e l) /\ not_excluded q (r_id l) (r_e l) /\ kind_ok q (r_pos l) (e_kind (r_e l)) /\
+       e_hmin (r_e l) <= r_amt l /\ fee_ok l) /\
+    (forall p ls, In (p, ls) (List.combine r all) ->
+       Z.of_nat (List.length (p_hops p)) <= q_max_len q /\
+       sumz (List.map h_cltv (p_hops p)) <= q_max_cltv q /\ last_dst ls = Some (q_payee q)) /\
+    match q_max_fee q with
+    | Some m => sumz (List.map path_fees all) + (sumz (List.map final_amt all) - q_value q) <= m
+    | None => True
+    end.
+Proof. exact route_ok_legs. Qed.
+
 (** The fee formula the checker uses — regenerated from router.rs on every run — is the BOLT 7
     formula [base + amount * proportional_millionths / 1 000 000] ([None] exactly on u64 overflow):
     an edit of the Rust formula breaks this theorem instead of silently changing the specification. *)
@@ -78,6 +117,19 @@ Theorem C16_recompute_exact : forall hops value hops' c,
   exact_policy value hops'.
 Proof. exact recompute_exact. Qed.
 
+(** Monotonicity (the arithmetic around finding F1): for the same channel policies, two paths in the
+    exact form of [C16_recompute_exact] — i.e. recomputed for values [v <= v'] that are not below
+    the final hop's minimum — satisfy: NO hop's amount is lower for the larger value.  When the final
+    hop is raised instead, the hops before it are computed for the un-raised value
+    ([C16_recompute_pays_policy_refuted]): that is exactly where the correspondence between value
+    and upstream amounts breaks.  [Examples.monotone_amounts]: the five-hop path at 1 000 000 and
+    4 000 000 msat. *)
+Theorem C16_recompute_amounts_monotone : forall v v' hs hs',
+  Forall2 same_policy hs hs' -> Forall fees_nonneg hs ->
+  exact_policy v hs -> exact_policy v' hs' -> v <= v' ->
+  Forall2 Z.le (amounts hs) (amounts hs').
+Proof. exact exact_policy_mono. Qed.
+
 (** ** The path-count clause
     [get_route] only collects paths contributing at least [minimal_value_contribution_msat]
     (regenerated from router.rs by rs2v, anchored at its [let]) and drops superfluous paths.  The
@@ -134,6 +186,8 @@ Module Examples.
 
   Example valid_route : route_valid g q r.
   Proof. apply C16_checker_exact. vm_compute. reflexivity. Qed.
+  Example route_ok_accepts : route_ok g q r = true /\ route_diagnose g q r = 0.
+  Proof. vm_compute. split; reflexivity. Qed.
 
   (* one msat less fee for node 1 *)
   Example underpaid_is_invalid :
@@ -194,4 +248,12 @@ Module Examples.
     (* a channel whose announcement requires an unknown feature is not usable *)
     one nil 11 22 = 5.
   Proof. vm_compute. repeat split; reflexivity. Qed.
+
+  Example monotone_amounts :
+    match recompute midbump_hops 1000000, recompute midbump_hops 4000000 with
+    | Some (hs, _), Some (hs', _) => (amounts hs, amounts hs')
+    | _, _ => (nil, nil)
+    end = ((3091600 :: 3060000 :: 3000000 :: 1001000 :: 1000000 :: nil)%list,
+           (4147060 :: 4105010 :: 4024520 :: 4004000 :: 4000000 :: nil)%list).
+  Proof. exact mono_example. Qed.
 End Examples.
